@@ -1,13 +1,22 @@
-(* C17 on the structural model: entry points that describe the same standard build the same
-   measurement and equations; a full measurement matrix generates the equations of the abbreviated
-   one (identical term lists) -- and nothing else for the types without in-system leakage terms. *)
-Require Import List ZArith Bool Arith.
+(* C17 on the structural model (AddModel).
+   1. The three entry points through / line / mapped matrix build the same argument structure.
+   2. The sorted port map: sort_z sorts; the B cell -> M cell map of _vnacal_new_add_common does not
+      depend on the ORDER in which the ports of the standard are listed (all arguments).
+   3. Bounded sweep: an abbreviated measurement matrix is accepted exactly when the documented
+      conditions hold, its values are stored in the cells the full matrix stores them in, and it
+      generates the equations of the full matrix (T16 / U16: a subset of them).
+   4. The order in which standards are added: a permutation of the calls gives a permutation of the
+      (measurement, equation) rows of every linear system (all lists of calls). *)
+Require Import List ZArith Bool Arith Lia Sorted Permutation.
 Require Import LV.Gen.LayoutGen LV.Cal.TermsModel LV.Cal.AddModel LV.Cal.TermsProofs.
 Import ListNotations.
 Local Open Scope nat_scope.
 
-(* through = line (0,1;1,0) = mapped matrix: the three entry points build the same argument
-   structure, so everything _vnacal_new_add_common derives from it is the same, for all arguments *)
+(* ------------------------------------------------------------------------------------------------ *)
+(* through = line (0,1;1,0) = mapped matrix: the three entry points (transcribed from the three C
+   wrappers, tied to them by the entry-point correspondence of check C17) build the same argument
+   structure, so everything _vnacal_new_add_common derives from it is the same, for all arguments.
+   True by unfolding the three definitions: the content is in their tie to the C wrappers. *)
 Lemma through_eq_line_eq_mapped_lemma :
   forall ty mr mc merr valid a_given a_rows a_cols b_rows b_cols port1 port2,
     add_through ty mr mc merr valid a_given a_rows a_cols b_rows b_cols port1 port2
@@ -18,11 +27,185 @@ Lemma through_eq_line_eq_mapped_lemma :
         [0; 1; 1; 0]%Z 2 2 (Some [port1; port2]).
 Proof. intros; split; reflexivity. Qed.
 
-(* abbreviated variants of a configuration of TermsProofs.all_cfgs (which uses the full matrix) *)
-Definition with_b (c : cfg) (br bc : nat) : add_args :=
-  let a := cfg_args c in
+(* ------------------------------------------------------------------------------------------------ *)
+(* the port-map sort *)
+Lemma insert_sorted_perm : forall x l, Permutation (x :: l) (insert_sorted x l).
+Proof.
+  intros x l; induction l as [|y r IH]; simpl; [reflexivity|].
+  destruct (Z.leb x y); [reflexivity|].
+  rewrite perm_swap. constructor. exact IH.
+Qed.
+
+Lemma insert_sorted_sorted : forall x l, Sorted Z.le l -> Sorted Z.le (insert_sorted x l).
+Proof.
+  intros x l; induction l as [|y r IH]; intros H; simpl.
+  - repeat constructor.
+  - destruct (Z.leb x y) eqn:E.
+    + constructor; [exact H|]. constructor. apply Z.leb_le; exact E.
+    + inversion H as [|? ? Hr Hy]; subst. constructor; [apply IH; exact Hr|].
+      apply Z.leb_gt in E.
+      destruct r as [|z r']; simpl.
+      * constructor. lia.
+      * destruct (Z.leb x z); constructor; [lia|]. inversion Hy; subst; assumption.
+Qed.
+
+Lemma sort_z_sorts_lemma : forall l, Sorted Z.le (sort_z l) /\ Permutation l (sort_z l).
+Proof.
+  induction l as [|x r [IS IP]]; simpl.
+  - split; constructor.
+  - split; [apply insert_sorted_sorted; exact IS|].
+    etransitivity; [apply perm_skip; exact IP|apply insert_sorted_perm].
+Qed.
+
+Lemma insert_sorted_comm : forall x y l,
+  insert_sorted x (insert_sorted y l) = insert_sorted y (insert_sorted x l).
+Proof.
+  intros x y l; induction l as [|z r IH]; simpl.
+  - destruct (Z.leb x y) eqn:A, (Z.leb y x) eqn:B; try reflexivity.
+    + apply Z.leb_le in A, B. assert (x = y) by lia. subst; reflexivity.
+    + apply Z.leb_gt in A, B. lia.
+  - destruct (Z.leb y z) eqn:Yz, (Z.leb x z) eqn:Xz; simpl;
+      destruct (Z.leb x y) eqn:A, (Z.leb y x) eqn:B; simpl;
+      rewrite ?Yz, ?Xz; try reflexivity;
+      try (apply Z.leb_le in A); try (apply Z.leb_gt in A); try (apply Z.leb_le in B); try (apply Z.leb_gt in B);
+      try (apply Z.leb_le in Yz); try (apply Z.leb_gt in Yz); try (apply Z.leb_le in Xz); try (apply Z.leb_gt in Xz);
+      try lia.
+    + assert (x = y) by lia; subst; reflexivity.
+    + rewrite IH; reflexivity.
+    + rewrite IH; reflexivity.
+    + rewrite IH; reflexivity.
+Qed.
+
+(* the sorted map depends on the SET of ports only, not on the order in which the caller lists them *)
+Lemma sort_z_order_irrelevant_lemma : forall l l', Permutation l l' -> sort_z l = sort_z l'.
+Proof.
+  induction 1; simpl.
+  - reflexivity.
+  - rewrite IHPermutation; reflexivity.
+  - apply insert_sorted_comm.
+  - etransitivity; eassumption.
+Qed.
+
+(* the same call with the ports of the standard listed in another order (and the S cells re-arranged) *)
+Definition with_map_s (a : add_args) (mp : list Z) (s : list Z) : add_args :=
   mkArgs (aa_ty a) (aa_mr a) (aa_mc a) (aa_merr a) (aa_valid a) (aa_a_given a) (aa_a_rows a) (aa_a_cols a)
-         (Z.of_nat br) (Z.of_nat bc) (aa_s a) (aa_s_rows a) (aa_s_cols a) (aa_s_diag a) (aa_map a).
+         (aa_b_rows a) (aa_b_cols a) s (aa_s_rows a) (aa_s_cols a) (aa_s_diag a) (Some mp).
+
+Definition map_ports (a : add_args) : list Z :=
+  match aa_map a with
+  | Some mp => firstn (Z.to_nat (Z.max (aa_s_rows a) (aa_s_cols a))) mp
+  | None => []
+  end.
+
+(* for ALL arguments: the B cell -> M cell map is a function of the set of ports *)
+Lemma m_cell_map_order_irrelevant_lemma : forall a mp mp' s',
+  aa_map a = Some mp ->
+  Permutation (map_ports a) (map_ports (with_map_s a mp' s')) ->
+  m_cell_map (with_map_s a mp' s') = m_cell_map a.
+Proof.
+  intros a mp mp' s' Hm HP.
+  unfold map_ports in HP. rewrite Hm in HP. simpl in HP.
+  unfold m_cell_map, m_rows_of_args, m_cols_of_args, m_port_map_of. rewrite Hm. simpl.
+  rewrite (sort_z_order_irrelevant_lemma _ _ HP). reflexivity.
+Qed.
+
+(* what add_common records is that map: inversion of the accepting path, all arguments *)
+Lemma accepted_records_cell_map_lemma : forall a m, add_common a = Accepted m -> ms_m_cells m = m_cell_map a.
+Proof.
+  intros a m H. unfold add_common in H.
+  repeat match type of H with
+  | (if ?c then _ else _) = _ => destruct c; [discriminate H|]
+  | (let '(_, _) := ?p in _) = _ => destruct p
+  | match ?x with Some _ => _ | None => _ end = _ => destruct x; [discriminate H|]
+  end.
+  match type of H with
+  | match ?x with Some _ => _ | None => _ end = _ => destruct x as [[? r]|]; [destruct r; discriminate H|]
+  end.
+  injection H as <-. reflexivity.
+Qed.
+
+Lemma port_order_irrelevant_for_m_cells_lemma : forall a mp mp' s' m m',
+  aa_map a = Some mp ->
+  Permutation (map_ports a) (map_ports (with_map_s a mp' s')) ->
+  add_common a = Accepted m ->
+  add_common (with_map_s a mp' s') = Accepted m' ->
+  ms_m_cells m' = ms_m_cells m.
+Proof.
+  intros a mp mp' s' m m' Hm HP H1 H2.
+  rewrite (accepted_records_cell_map_lemma _ _ H1), (accepted_records_cell_map_lemma _ _ H2).
+  eapply m_cell_map_order_irrelevant_lemma; eassumption.
+Qed.
+
+(* ------------------------------------------------------------------------------------------------ *)
+(* The bounded sweep.  A configuration: type, dimensions, the ports of the standard IN THE ORDER GIVEN
+   (any order), the form of the S argument, m_error set or not, a matrix given or not. *)
+Inductive sform :=
+| SFull (pat : nat)      (* k x k matrix of parameters, zero pattern `pat' (see s_handle) *)
+| SDiag.                 (* vnaa_s_is_diagonal (single / double reflect; any k in the model) *)
+
+Record xcfg := mkX {
+  x_ty : caltype; x_mr : nat; x_mc : nat;
+  x_ports : list nat;
+  x_form : sform;
+  x_merr : bool;
+  x_ag : bool
+}.
+
+(* S cell (i, j) of the k-port standard: 0 = VNACAL_ZERO (VNACAL_MATCH on the diagonal), else a parameter.
+   pat 0: no zero; pat 1: every off-diagonal cell zero and a match on port 0;
+   pat 2: zero above the diagonal (directional: S_ij = 0 for i < j);
+   pat 3: off-diagonal non-zero only at (1,3), (2,0), (2,1) (non-reciprocal; the two-level union-find chain) *)
+Definition s_handle (pat k i j : nat) : Z :=
+  let h := Z.of_nat (3 + i * k + j) in
+  match pat with
+  | 0 => h
+  | 1 => if Nat.eqb i j then (if Nat.eqb i 0 then 0%Z else h) else 0%Z
+  | 2 => if Nat.ltb i j then 0%Z else h
+  | _ => if Nat.eqb i j then h
+         else if orb (andb (Nat.eqb i 1) (Nat.eqb j 3)) (andb (Nat.eqb i 2) (orb (Nat.eqb j 0) (Nat.eqb j 1)))
+              then h else 0%Z
+  end.
+
+Definition x_args (c : xcfg) (br bc : nat) : add_args :=
+  let k := length (x_ports c) in
+  let ty := x_ty c in
+  mkArgs ty (x_mr c) (x_mc c) (x_merr c) (fun _ => true)
+         (x_ag c) (if VNACAL_IS_UE14 ty then 1%Z else Z.of_nat bc) (Z.of_nat bc)
+         (Z.of_nat br) (Z.of_nat bc)
+         (match x_form c with
+          | SFull pat => flat_map (fun i => map (fun j => s_handle pat k i j) (seq 0 k)) (seq 0 k)
+          | SDiag => map (fun i => Z.of_nat (3 + i)) (seq 0 k)
+          end)
+         (Z.of_nat k) (Z.of_nat k)
+         (match x_form c with SDiag => true | _ => false end)
+         (Some (map Z.of_nat (x_ports c))).
+
+(* ---- the specification side, written without the sort ---- *)
+(* the ports of the standard in ascending order, 0-based: those of 0 .. p-1 that occur in the map *)
+Definition asc_ports (p : nat) (ports : list nat) : list nat :=
+  filter (fun q => existsb (Nat.eqb (q + 1)) ports) (seq 0 p).
+
+(* vnacal_new_add_*(3): an abbreviated matrix has the rows (columns) of the ports of the standard, in
+   ascending order of VNA port; cell (i, j) of the caller's matrix is cell (rows[i], cols[j]) of the full one.
+   The list gives, for every cell of the caller's matrix by rows, the full cell it denotes. *)
+Definition denoted_cells (c : xcfg) (br bc : nat) : list nat :=
+  let asc := asc_ports (Nat.max (x_mr c) (x_mc c)) (x_ports c) in
+  let rows := if Nat.ltb br (x_mr c) then asc else seq 0 (x_mr c) in
+  let cols := if Nat.ltb bc (x_mc c) then asc else seq 0 (x_mc c) in
+  flat_map (fun r => map (fun cc => r * x_mc c + cc) cols) rows.
+
+(* when the documentation (and the D48 repair) allow a br x bc matrix: each dimension is the full one, or
+   the minimum one of the type (number of ports k; T16: k x full columns; U16: full rows x k) and then
+   smaller than the full one with every port of the standard inside the calibration's rows (columns) *)
+Definition shape_allowed (c : xcfg) (br bc : nat) : bool :=
+  let k := length (x_ports c) in
+  let ty := x_ty c in
+  let minr := if caltype_eqb ty U16 then x_mr c else k in
+  let minc := if caltype_eqb ty T16 then x_mc c else k in
+  andb (orb (Nat.eqb br (x_mr c))
+            (andb (andb (Nat.eqb br minr) (Nat.ltb br (x_mr c))) (forallb (fun q => Nat.leb q (x_mr c)) (x_ports c))))
+       (orb (Nat.eqb bc (x_mc c))
+            (andb (andb (Nat.eqb bc minc) (Nat.ltb bc (x_mc c))) (forallb (fun q => Nat.leb q (x_mc c)) (x_ports c)))).
 
 Definition term_eqb (a b : term) : bool :=
   andb (andb (Z.eqb (t_x a) (t_x b)) (Bool.eqb (t_neg a) (t_neg b)))
@@ -35,37 +218,239 @@ Fixpoint list_eqb {A} (f : A -> A -> bool) (x y : list A) : bool :=
   end.
 Definition eq_eqb (a b : equation) : bool :=
   andb (andb (Nat.eqb (e_row a) (e_row b)) (Nat.eqb (e_col a) (e_col b))) (list_eqb term_eqb (e_terms a) (e_terms b)).
+Definition scell_eqb (a b : scell) : bool :=
+  match a, b with
+  | SNull, SNull => true | SZero, SZero => true | SParam x, SParam y => Z.eqb x y | _, _ => false
+  end.
+Definition optn_eqb (a b : option nat) : bool :=
+  match a, b with None, None => true | Some x, Some y => Nat.eqb x y | _, _ => false end.
+Definition conn_eqb (a b : option (list bool)) : bool :=
+  match a, b with None, None => true | Some x, Some y => list_eqb Bool.eqb x y | _, _ => false end.
+Definition is_some {A} (o : option A) : bool := match o with Some _ => true | None => false end.
 
-Definition check_abbrev (c : cfg) : bool :=
-  let '(ty, (mr, mc), ports) := c in
-  let k := length ports in
-  match add_common (cfg_args c) with
+(* the full matrix itself is refused only in one case of the sweep: measurement-error modelling on T16 / U16
+   needs the S parameters of ALL VNA ports (a standard on fewer ports leaves cells unknown) *)
+Definition full_allowed (c : xcfg) : bool :=
+  negb (andb (andb (x_merr c) (is_16 (x_ty c))) (Nat.ltb (length (x_ports c)) (Nat.max (x_mr c) (x_mc c)))).
+
+(* the full matrix of the sweep carries in every cell its own index (a value that identifies the cell:
+   store_m is parametric in the values, so agreement on these tags is agreement for all values) *)
+Definition check_x (c : xcfg) : bool :=
+  let ty := x_ty c in let mr := x_mr c in let mc := x_mc c in
+  let k := length (x_ports c) in
+  let tags := seq 0 (mr * mc) in
+  match add_common (x_args c mr mc) with
   | Accepted full =>
-      forallb (fun brbc =>
+      let stored_full := store_m (mr * mc) (ms_m_cells full) tags in
+      andb (andb (full_allowed c) (list_eqb optn_eqb stored_full (map Some tags)))
+      (forallb (fun brbc =>
         let '(br, bc) := brbc in
-        match add_common (with_b c br bc) with
+        match add_common (x_args c br bc) with
         | Accepted ab =>
-            andb
+            let stored_ab := store_m (mr * mc) (ms_m_cells ab) (denoted_cells c br bc) in
+            andb (shape_allowed c br bc)
+            (andb
+              (* the caller's values land in the cells the full matrix has them in; exactly these cells are given *)
+              (andb (Nat.eqb (length (ms_m_cells ab)) (br * bc))
+                 (andb (Nat.eqb (length (denoted_cells c br bc)) (br * bc))
+                    (andb (list_eqb Bool.eqb (map is_some stored_ab) (ms_m_given ab))
+                          (forallb (fun xy => match fst xy with None => true | Some _ => optn_eqb (fst xy) (snd xy) end)
+                                   (combine stored_ab stored_full)))))
+            (andb
+              (* the S matrix and the connectivity matrix do not depend on the shape of M *)
+              (andb (list_eqb scell_eqb (ms_s ab) (ms_s full)) (conn_eqb (ms_conn ab) (ms_conn full)))
+            (andb
               (* every equation of the abbreviated call is an equation of the full call, same terms *)
               (forallb (fun e => existsb (eq_eqb e) (ms_eqs full)) (ms_eqs ab))
               (* and there are no others, except for T16 / U16 whose extra rows / columns carry the
-                 in-system leakage terms *)
-              (orb (is_16 ty) (list_eqb eq_eqb (ms_eqs ab) (ms_eqs full)))
-        | Rejected _ => true          (* not accepted: nothing to compare *)
+                 in-system leakage terms: there, INCLUSION ONLY *)
+              (orb (is_16 ty) (list_eqb eq_eqb (ms_eqs ab) (ms_eqs full))))))
+        | Rejected _ => negb (shape_allowed c br bc)
         | Aborts _ => false
-        end) [(k, mc); (mr, k); (k, k)]
-  | _ => false
+        end) [(k, mc); (mr, k); (k, k)])
+  | Rejected _ =>
+      (* then no shape is accepted either *)
+      andb (negb (full_allowed c))
+           (forallb (fun brbc => match add_common (x_args c (fst brbc) (snd brbc)) with Rejected _ => true | _ => false end)
+                    [(k, mc); (mr, k); (k, k)])
+  | Aborts _ => false
   end.
 
-Lemma all_abbrev_ok : forallb check_abbrev all_cfgs = true.
+(* ---- the enumeration ---- *)
+Fixpoint insert_all {A} (x : A) (l : list A) : list (list A) :=
+  match l with
+  | [] => [[x]]
+  | y :: r => (x :: l) :: map (cons y) (insert_all x r)
+  end.
+Fixpoint perms {A} (l : list A) : list (list A) :=
+  match l with [] => [[]] | x :: r => flat_map (insert_all x) (perms r) end.
+
+Definition nonempty_subsets (p : nat) : list (list nat) :=
+  filter (fun x => negb (Nat.eqb (length x) 0)) (sublists (seq 1 p)).
+(* ascending, descending, rotated by one *)
+Definition three_orders (l : list nat) : list (list nat) :=
+  match l with
+  | [] => []
+  | [_] => [l]
+  | [_; _] => [l; rev l]
+  | x :: r => [l; rev l; r ++ [x]]
+  end.
+
+Definition over_types_dims (f : caltype -> nat -> nat -> list xcfg) : list xcfg :=
+  flat_map (fun ty => flat_map (fun rc => if dims_allowed ty rc then f ty (fst rc) (snd rc) else []) dims4) public_types.
+
+(* A: every port set in EVERY order, all S cells parameters *)
+Definition sweep_A : list xcfg :=
+  over_types_dims (fun ty mr mc =>
+    flat_map (fun sub => map (fun ports => mkX ty mr mc ports (SFull 0) false false) (perms sub))
+             (nonempty_subsets (Nat.max mr mc))).
+(* B: ascending, descending and rotated maps x zero patterns 1..3 and the diagonal form *)
+Definition sweep_B : list xcfg :=
+  over_types_dims (fun ty mr mc =>
+    flat_map (fun sub => flat_map (fun ports =>
+        map (fun f => mkX ty mr mc ports f false false) [SFull 1; SFull 2; SFull 3; SDiag]) (three_orders sub))
+             (nonempty_subsets (Nat.max mr mc))).
+(* C: descending maps x (m_error, a matrix given) *)
+Definition sweep_C : list xcfg :=
+  over_types_dims (fun ty mr mc =>
+    flat_map (fun sub => map (fun ma => mkX ty mr mc (rev sub) (SFull 0) (fst ma) (snd ma))
+                             [(true, false); (false, true); (true, true)])
+             (nonempty_subsets (Nat.max mr mc))).
+Definition sweep_cfgs : list xcfg := sweep_A ++ sweep_B ++ sweep_C.
+
+
+Lemma sweep_ok : forallb check_x sweep_cfgs = true.
+Proof. vm_cast_no_check (@eq_refl bool true). Qed.   (* evaluated once, by the kernel at Qed *)
+
+Lemma abbreviated_agrees_with_full_swept_lemma : forall c, In c sweep_cfgs -> check_x c = true.
+Proof. apply forallb_forall. exact sweep_ok. Qed.
+
+(* the sweep is not vacuous.  Over part A (every order of every port set): abbreviated calls (a shape
+   counts when it is smaller than the full matrix) accepted and compared, those among them whose port map
+   is not ascending, and shapes refused (and required to be refused by shape_allowed) *)
+Definition truly_abbreviated (c : xcfg) (brbc : nat * nat) : bool :=
+  orb (Nat.ltb (fst brbc) (x_mr c)) (Nat.ltb (snd brbc) (x_mc c)).
+Definition shapes_of (c : xcfg) : list (nat * nat) :=
+  let k := length (x_ports c) in [(k, x_mc c); (x_mr c, k); (k, k)].
+Definition count_shapes (l : list xcfg) (p : xcfg -> nat * nat -> bool) : nat :=
+  fold_left (fun n c => n + length (filter (p c) (shapes_of c))) l 0.
+Definition accepted_shape (c : xcfg) (brbc : nat * nat) : bool :=
+  match add_common (x_args c (fst brbc) (snd brbc)) with Accepted _ => true | _ => false end.
+Definition ascending (l : list nat) : bool := list_eqb Nat.eqb l (map S (asc_ports 4 l)).
+
+Example sweep_counts :
+  (length sweep_A, length sweep_B, length sweep_C) = (2480, 52 * 104, 2112) /\
+  count_shapes sweep_A (fun c s => andb (truly_abbreviated c s) (accepted_shape c s)) = 2348 /\
+  count_shapes sweep_A (fun c s => andb (andb (truly_abbreviated c s) (accepted_shape c s)) (negb (ascending (x_ports c)))) = 1300 /\
+  count_shapes sweep_A (fun c s => negb (accepted_shape c s)) = 3204.
+Proof. vm_compute. repeat split; reflexivity. Qed.
+
+(* the sort at work: a three-port standard on VNA ports 4, 2, 1 (in this order) of a 4 x 4 T8 calibration,
+   3 x 3 measurement matrix: its rows / columns are the VNA ports 1, 2, 4 *)
+Example unsorted_map_421 :
+  match add_common (x_args (mkX T8 4 4 [4; 2; 1] (SFull 0) false false) 3 3) with
+  | Accepted m => ms_m_cells m = [0; 1; 3; 4; 5; 7; 12; 13; 15]
+  | _ => False
+  end.
 Proof. vm_compute. reflexivity. Qed.
 
-Lemma full_eq_abbreviated_lemma : forall c, In c all_cfgs -> check_abbrev c = true.
-Proof. apply forallb_forall. exact all_abbrev_ok. Qed.
+(* the hypotheses of port_order_irrelevant_for_m_cells are met by a non-trivial pair *)
+Lemma port_order_irrelevant_nonvacuous_lemma :
+  let a := x_args (mkX T8 4 4 [4; 2; 1] (SFull 0) false false) 3 3 in
+  let mp' := [1; 2; 4]%Z in
+  aa_map a = Some [4; 2; 1]%Z /\
+  Permutation (map_ports a) (map_ports (with_map_s a mp' (aa_s a))) /\
+  (exists m m', add_common a = Accepted m /\ add_common (with_map_s a mp' (aa_s a)) = Accepted m' /\
+                ms_m_cells m = [0; 1; 3; 4; 5; 7; 12; 13; 15] /\ ms_m_cells m' = ms_m_cells m).
+Proof.
+  split; [reflexivity|]. split.
+  - vm_compute. change (Permutation (rev [1; 2; 4]%Z) [1; 2; 4]%Z). apply Permutation_sym, Permutation_rev.
+  - eexists; eexists. split; [vm_compute; reflexivity|]. split; [vm_compute; reflexivity|].
+    split; vm_compute; reflexivity.
+Qed.
 
-(* how many abbreviated calls were accepted and compared *)
-Example abbrev_accepted_count :
-  fold_left (fun n c => let '(ty, (mr, mc), ports) := c in let k := length ports in
-     n + length (filter (fun brbc => match add_common (with_b c (fst brbc) (snd brbc)) with Accepted _ => true | _ => false end)
-                        [(k, mc); (mr, k); (k, k)])) all_cfgs 0 = 0 -> False.
-Proof. vm_compute. discriminate. Qed.
+(* ------------------------------------------------------------------------------------------------ *)
+(* The order in which the standards are added.  _vnacal_new_add_common reads nothing from the
+   calibration under construction but the layout, the m_error flag and the parameter table (aa_valid),
+   so the calls are independent: *)
+Definition accepted_of (a : add_args) : list measurement :=
+  match add_common a with Accepted m => [m] | _ => [] end.
+
+Definition add_all (l : list add_args) : calstate := fold_left (fun st a => fst (add_step st a)) l [].
+
+Lemma add_all_from : forall l st, fold_left (fun st a => fst (add_step st a)) l st = st ++ flat_map accepted_of l.
+Proof.
+  induction l as [|a r IH]; intros st; simpl.
+  - rewrite app_nil_r; reflexivity.
+  - rewrite IH. unfold add_step, accepted_of. destruct (add_common a); simpl; try reflexivity.
+    rewrite <- app_assoc; reflexivity.
+Qed.
+
+Lemma add_all_flat_map : forall l, add_all l = flat_map accepted_of l.
+Proof. intros l; unfold add_all; rewrite add_all_from; reflexivity. Qed.
+
+(* a row of a linear system: the equation together with the measurement whose M values and S cells its
+   terms refer to (system_equations gives the index of that measurement in the list) *)
+Definition no_meas : measurement := mkMeas [] [] None [].
+Definition system_rows (ty : caltype) (st : calstate) (sys : nat) : list (measurement * equation) :=
+  map (fun ie => (nth (fst ie) st no_meas, snd ie)) (system_equations ty st sys).
+
+Definition eq_in_system (ty : caltype) (sys : nat) (e : equation) : bool :=
+  orb (negb (is_ue14 ty)) (Nat.eqb (e_col e) sys).
+
+Definition rows_of (ty : caltype) (sys : nat) (m : measurement) : list (measurement * equation) :=
+  map (pair m) (filter (eq_in_system ty sys) (ms_eqs m)).
+
+Lemma eqs_of_index : forall ty sys (i : nat) (l : list equation),
+  flat_map (fun e => if orb (negb (is_ue14 ty)) (Nat.eqb (e_col e) sys) then [(i, e)] else []) l
+  = map (pair i) (filter (eq_in_system ty sys) l).
+Proof.
+  intros ty sys i l; induction l as [|e r IH]; simpl; [reflexivity|].
+  unfold eq_in_system at 1. destruct (orb (negb (is_ue14 ty)) (Nat.eqb (e_col e) sys)); simpl; rewrite IH; reflexivity.
+Qed.
+
+Lemma system_rows_from : forall ty sys st pre,
+  map (fun ie : nat * equation => (nth (fst ie) (pre ++ st) no_meas, snd ie))
+      (flat_map (fun im : nat * measurement => let '(i, m) := im in
+                   flat_map (fun e => if orb (negb (is_ue14 ty)) (Nat.eqb (e_col e) sys) then [(i, e)] else [])
+                            (ms_eqs m))
+                (combine (seq (length pre) (length st)) st))
+  = flat_map (rows_of ty sys) st.
+Proof.
+  intros ty sys st; induction st as [|m r IH]; intros pre; simpl; [reflexivity|].
+  rewrite map_app. f_equal.
+  - rewrite eqs_of_index. unfold rows_of. rewrite map_map. apply map_ext. intros e; simpl.
+    rewrite app_nth2 by lia. rewrite Nat.sub_diag. reflexivity.
+  - specialize (IH (pre ++ [m])). rewrite <- app_assoc in IH. simpl in IH.
+    rewrite app_length in IH. simpl in IH. rewrite Nat.add_1_r in IH. exact IH.
+Qed.
+
+Lemma system_rows_flat_map : forall ty st sys, system_rows ty st sys = flat_map (rows_of ty sys) st.
+Proof. intros ty st sys. unfold system_rows, system_equations. exact (system_rows_from ty sys st []). Qed.
+
+(* for ALL calibration states: permuting the accepted standards permutes the rows of every system *)
+Lemma standards_order_permutes_rows_lemma : forall ty sys st st',
+  Permutation st st' -> Permutation (system_rows ty st sys) (system_rows ty st' sys).
+Proof. intros ty sys st st' H. rewrite !system_rows_flat_map. apply Permutation_flat_map. exact H. Qed.
+
+(* for ALL lists of calls (accepted or refused, any arguments): adding the same standards in another
+   order gives the same measurements and, in every linear system, the same rows in another order *)
+Lemma add_order_permutes_rows_lemma : forall ty sys l l',
+  Permutation l l' ->
+  Permutation (add_all l) (add_all l') /\
+  Permutation (system_rows ty (add_all l) sys) (system_rows ty (add_all l') sys).
+Proof.
+  intros ty sys l l' H.
+  assert (P : Permutation (add_all l) (add_all l')) by (rewrite !add_all_flat_map; apply Permutation_flat_map; exact H).
+  split; [exact P|apply standards_order_permutes_rows_lemma; exact P].
+Qed.
+
+(* the hypotheses are met non-trivially: a through and a reflect on a 2 x 2 TE10 calibration in both orders
+   give the 5 rows of the system in two different orders *)
+Definition ex_thru : add_args := mkArgs TE10 2 2 false (fun _ => true) false 0 0 2 2 [0; 1; 1; 0]%Z 2 2 false (Some [1; 2]%Z).
+Definition ex_refl : add_args := mkArgs TE10 2 2 false (fun _ => true) false 0 0 2 2 [2]%Z 1 1 true (Some [2]%Z).
+Example add_order_example :
+  length (system_rows TE10 (add_all [ex_thru; ex_refl]) 0) = 5 /\
+  map (fun r => e_row (snd r)) (system_rows TE10 (add_all [ex_thru; ex_refl]) 0) <>
+  map (fun r => e_row (snd r)) (system_rows TE10 (add_all [ex_refl; ex_thru]) 0).
+Proof. vm_compute. split; [reflexivity|discriminate]. Qed.
